@@ -140,6 +140,17 @@ def design_check(tier, stamp):
         return {"shapes": ["line writer: all chunkings x 2 rounds"], "bounds": {}, "ok": "No error has been found" in out,
                 "generated": gen, "distinct": dist, "errors": vlib.tlc_error(out)[:3]}
 
+    def line_par(_):
+        # two goroutines writing to one line writer: exactly-once delivery holds with the lock and
+        # the same check rejects the writer without it (defect 32)
+        cfg = "SPECIFICATION Spec\nCONSTANTS\n  Locked = %s\n  LinesPer = %d\nINVARIANT ExactlyOnce\nCHECK_DEADLOCK FALSE\n"
+        rc, out, wd = vlib.tlc(SPEC, "LineWriterPar", cfg="LWP.cfg", workers=4, timeout=900, heap="4g", files={"LWP.cfg": cfg % ("TRUE", 3 if tier == "quick" else 5)})
+        gen, dist = vlib.tlc_stats(out)
+        rc2, out2, wd2 = vlib.tlc(SPEC, "LineWriterPar", cfg="LWP.cfg", workers=4, timeout=900, heap="4g", files={"LWP.cfg": cfg % ("FALSE", 2)})
+        bad = "Invariant ExactlyOnce is violated" in out2
+        return {"shapes": ["line writer: two concurrent writers"], "bounds": {}, "ok": "No error has been found" in out and bad,
+                "generated": gen, "distinct": dist, "errors": vlib.tlc_error(out)[:3] + ([] if bad else ["the writer without a lock was not rejected"])}
+
     def watch_mc(_):
         # watch mode's debouncer / builder: no lost update, no spurious build, settles; and the
         # tempting simplification (dirty cleared on every tick) must be rejected by the same check
@@ -156,9 +167,11 @@ def design_check(tier, stamp):
     with ThreadPoolExecutor(max_workers=3) as ex:
         fl = ex.submit(line_mc, None)
         fw = ex.submit(watch_mc, None)
+        fp_ = ex.submit(line_par, None)
         runs = list(ex.map(one, DESIGN_BOUNDS[tier]))
         runs.append(fl.result())
         runs.append(fw.result())
+        runs.append(fp_.result())
     return {"ok": all(r["ok"] for r in runs), "generated": sum(r["generated"] for r in runs), "distinct": sum(r["distinct"] for r in runs),
             "runs": runs, "stamp": stamp, "errors": [e for r in runs for e in r["errors"]][:4]}
 
